@@ -1,5 +1,5 @@
 """Runner: execute souffle (interpreter / compiled) on generated programs and read typed results back."""
-import os, subprocess, json, shutil, glob
+import os, subprocess, json, shutil, glob, hashlib
 from .common import *
 from .vals import parse_value, to_text, ParseError
 from .dl import Program, Rel
@@ -73,23 +73,40 @@ def cxx_kind():
     return os.environ.get("VERIF_CXX", "clang++")
 
 
+def _headers_fingerprint():
+    h = hashlib.sha1()
+    items = []
+    for root, _, files in os.walk(INCLUDE):
+        for fn in files:
+            p = os.path.join(root, fn)
+            try:
+                st = os.stat(p)
+                items.append((os.path.relpath(p, INCLUDE), st.st_mtime_ns, st.st_size))
+            except OSError:
+                pass
+    for it in sorted(items):
+        h.update(repr(it).encode())
+    return h.hexdigest()[:16]
+
+
 def ensure_pch():
-    """Precompiled header for souffle/CompiledSouffle.h built from the working tree's headers.
-    Rebuilt whenever any header under src/include is newer than the pch."""
+    """Precompiled header for souffle/CompiledSouffle.h built from the working tree's headers.  The pch lives in a
+    directory named after a fingerprint of (path, mtime, size) of every header under src/include, so a pch that
+    does not belong to the current tree (edited header, restored sandbox copy) is never used."""
     cxx = cxx_kind()
-    pch_dir = os.path.join(VBUILD, "pch-" + cxx.replace("+", "x"))
+    fp = _headers_fingerprint()
+    base = os.path.join(VBUILD, "pch-" + cxx.replace("+", "x"))
+    pch_dir = os.path.join(base, fp)
     hdr = os.path.join(pch_dir, "vpch.h")
     gch = hdr + (".gch" if cxx == "g++" else ".pch")
     with Lock("pch"):
-        newest = 0
-        for root, _, files in os.walk(INCLUDE):
-            for fn in files:
-                try:
-                    newest = max(newest, os.path.getmtime(os.path.join(root, fn)))
-                except OSError:
-                    pass
-        if os.path.exists(gch) and os.path.getmtime(gch) > newest:
+        if os.path.exists(gch) and os.path.exists(gch + ".ok"):
             return hdr
+        # drop pchs of other fingerprints (disk space)
+        if os.path.isdir(base):
+            for d in os.listdir(base):
+                if d != fp:
+                    shutil.rmtree(os.path.join(base, d), ignore_errors=True)
         os.makedirs(pch_dir, exist_ok=True)
         with open(hdr, "w") as f:
             f.write('#include "souffle/CompiledSouffle.h"\n#include "souffle/SignalHandler.h"\n#include "souffle/SouffleInterface.h"\n#include "souffle/datastructure/BTreeDelete.h"\n#include "souffle/io/IOSystem.h"\n#include <any>\n')
@@ -97,6 +114,7 @@ def ensure_pch():
                            stdout=subprocess.PIPE, stderr=subprocess.STDOUT, text=True)
         if r.returncode != 0:
             raise CheckError("pch build failed:\n" + r.stdout[-3000:])
+        open(gch + ".ok", "w").close()
     return hdr
 
 
@@ -170,6 +188,8 @@ def build_compiled(dl, workdir, name="prog", extra=(), multi=False, cxx_extra=()
             raise GenError("souffle -g failed rc=%s: %s" % (rc, se[-2000:]))
         rc, out = compile_cpp([cpp], exe, cxx_extra)
     if rc != 0:
+        if "precompiled header" in out or ".pch" in out and "modified since" in out:
+            raise CheckError("stale precompiled header (machinery problem, not a property violation): " + out[-800:])
         raise GenError("C++ compilation failed rc=%s: %s" % (rc, out[-3000:]))
     return exe
 
